@@ -36,18 +36,59 @@ Example C05_value_record_example :
 Proof. vm_compute. repeat split. Qed.
 
 (* ---------------------------------------------------------------- (b) Adjust::apply, SinglePos, PairPos *)
-Theorem C05_adjust_accumulates : forall m a x,
+(* Adjust::apply is a total function (no panic, no error, the same in every build profile).  Whenever the
+   16/32-bit sums fit, a record without vertical advance adds x_advance to the kerning and (x_placement,
+   y_placement) to the placement — the mathematical sums. *)
+Theorem C05_adjust_accumulates : forall a x,
   y_advance a = 0 ->
   -32768 <= x_placement a < 32768 -> -32768 <= y_placement a < 32768 ->
   -32768 <= i_kern x + x_advance a < 32768 ->
   placement_fits (i_place x) (x_placement a) (y_placement a) ->
-  adjust_apply m a x =
-  Ok (set_kern (set_place x (placement_plus (i_place x) (x_placement a) (y_placement a))) (i_kern x + x_advance a)).
+  adjust_apply a x =
+  set_kern (set_place x (placement_plus (i_place x) (x_placement a) (y_placement a))) (i_kern x + x_advance a).
 Proof. exact adjust_accumulates. Qed.
 Print Assumptions C05_adjust_accumulates.
 
+(* ... and for EVERY glyph state, whether the sums fit or not: each sum is clamped to the field that holds it
+   (i16 kerning and anchor coordinates, i32 distances).  F27 (debug panic / release wrap-around) is repaired. *)
+Theorem C05_adjust_saturates : forall a x,
+  y_advance a = 0 ->
+  -32768 <= x_placement a < 32768 -> -32768 <= y_placement a < 32768 ->
+  adjust_apply a x =
+  set_kern (set_place x (placement_plus_sat (i_place x) (x_placement a) (y_placement a)))
+           (sat_signed 16 (i_kern x + x_advance a)).
+Proof. exact adjust_saturates. Qed.
+Print Assumptions C05_adjust_saturates.
+
+(* the clamp: the sum itself when it fits, otherwise the bound of the field on the side of the sum *)
+Theorem C05_saturating_sum16 : forall a b,
+  (-32768 <= a + b < 32768 -> sat_add16 a b = a + b) /\
+  (a + b < -32768 -> sat_add16 a b = -32768) /\
+  (32768 <= a + b -> sat_add16 a b = 32767) /\
+  -32768 <= sat_add16 a b < 32768.
+Proof. exact sat_add16_spec. Qed.
+Print Assumptions C05_saturating_sum16.
+
+Theorem C05_saturating_sum32 : forall a b,
+  (-2147483648 <= a + b < 2147483648 -> sat_add32 a b = a + b) /\
+  (a + b < -2147483648 -> sat_add32 a b = -2147483648) /\
+  (2147483648 <= a + b -> sat_add32 a b = 2147483647) /\
+  -2147483648 <= sat_add32 a b < 2147483648.
+Proof. exact sat_add32_spec. Qed.
+Print Assumptions C05_saturating_sum32.
+
+(* non-vacuity, the recorded input of F27: x_advance 30000 applied twice gives 32767 (not a panic, not -5536);
+   a mark anchor at x = 32000 moved by 1000 stays at 32767 *)
+Example C05_F27_repaired :
+  adjust_apply (mkAdj 0 0 30000 0) (adjust_apply (mkAdj 0 0 30000 0) (init_info None 1 0 false)) =
+  mkInfo 1 0 false 32767 PNone false /\
+  adjust_apply (mkAdj 1000 (-1000) (-30000) 0) (mkInfo 2 0 false (-30000) (PMarkAnchor 0 (32000, -32000) (1, 2)) true) =
+  mkInfo 2 0 false (-32768) (PMarkAnchor 0 (32767, -32768) (1, 2)) true /\
+  sat_signed 16 (30000 + 30000) = 32767 /\ sat_signed 16 (30000 + 2000) = 32000.
+Proof. vm_compute. repeat split. Qed.
+
 (* what the code ignores: a record with a vertical advance is dropped entirely *)
-Theorem C05_adjust_ignores_vertical_advance : forall m a x, y_advance a <> 0 -> adjust_apply m a x = Ok x.
+Theorem C05_adjust_ignores_vertical_advance : forall a x, y_advance a <> 0 -> adjust_apply a x = x.
 Proof. exact adjust_ignores_vertical_advance. Qed.
 Print Assumptions C05_adjust_ignores_vertical_advance.
 
@@ -95,25 +136,25 @@ Print Assumptions C05_pairpos_format2_flat_index.
 
 (* lookup type 1 over a run: pointwise, glyphs the lookup flags skip untouched (the skip rule is C04's
    C04_match_glyph_is_skip_spec: Model/Layout.v is shared) *)
-Theorem C05_singlepos_lookup_spec : forall m lks gd li l lk subs,
+Theorem C05_singlepos_lookup_spec : forall lks gd li l lk subs,
   get_plookup lks li = Ok lk -> pl_body lk = LSinglePos subs ->
-  gpos_apply_lookup m (Some lks) gd li l =
-  map_out (singlepos_spec m (from_lookup_flag (pl_flag lk) (pl_mfs lk)) gd subs) l.
+  gpos_apply_lookup (Some lks) gd li l =
+  map_out (singlepos_spec (from_lookup_flag (pl_flag lk) (pl_mfs lk)) gd subs) l.
 Proof. exact singlepos_lookup_spec. Qed.
 Print Assumptions C05_singlepos_lookup_spec.
 
 (* lookup type 2 over a run: every pair of consecutive unskipped glyphs, left to right *)
-Theorem C05_pairpos_lookup_spec : forall m lks gd li l lk subs,
+Theorem C05_pairpos_lookup_spec : forall lks gd li l lk subs,
   get_plookup lks li = Ok lk -> pl_body lk = LPairPos subs ->
-  gpos_apply_lookup m (Some lks) gd li l =
-  fold_pairs (fun i1 i2 l => pairpos m subs i1 i2 l)
+  gpos_apply_lookup (Some lks) gd li l =
+  fold_pairs (fun i1 i2 l => pairpos subs i1 i2 l)
              (adjacent (unskipped_positions (from_lookup_flag (pl_flag lk) (pl_mfs lk)) gd (iids l) 0)) l.
 Proof. exact pairpos_lookup_spec. Qed.
 Print Assumptions C05_pairpos_lookup_spec.
 
 Example C05_pair_kerning_example :
   let lks := [mkPLookup 0 None (LPairPos [PairPosF1 (CovF1 [1]) 4 0 [[mkPV 2 (mkAdj 0 0 (-50) 0) (mkAdj 0 0 0 0)]]])] in
-  gpos_apply_lookup Debug (Some lks) None 0 [init_info None 1 0 false; init_info None 2 0 false; init_info None 1 0 false] =
+  gpos_apply_lookup (Some lks) None 0 [init_info None 1 0 false; init_info None 2 0 false; init_info None 1 0 false] =
   Ok [mkInfo 1 0 false (-50) PNone false; mkInfo 2 0 false 0 PNone false; mkInfo 1 0 false 0 PNone false].
 Proof. vm_compute. reflexivity. Qed.
 
@@ -149,13 +190,13 @@ Print Assumptions C05_cursive_anchors_selected.
 
 (* every lookup of every type (contextual ones with their nested lookups included) keeps the run's glyphs
    and keeps the attachment indices in range: a mark points to an earlier glyph, a cursive glyph to a later one *)
-Theorem C05_lookup_keeps_attachments_in_range : forall m lookups gd li l0 l l',
-  Inv l0 l -> gpos_apply_lookup m lookups gd li l = Ok l' -> Inv l0 l'.
+Theorem C05_lookup_keeps_attachments_in_range : forall lookups gd li l0 l l',
+  Inv l0 l -> gpos_apply_lookup lookups gd li l = Ok l' -> Inv l0 l'.
 Proof. exact gpos_apply_lookup_inv. Qed.
 Print Assumptions C05_lookup_keeps_attachments_in_range.
 
-Theorem C05_attachment_indices_in_range : forall m t gd kern kerning custom script lang l l',
-  wf l -> gpos_apply m t gd kern kerning custom script lang l = Ok l' ->
+Theorem C05_attachment_indices_in_range : forall t gd kern kerning custom script lang l l',
+  wf l -> gpos_apply t gd kern kerning custom script lang l = Ok l' ->
   len l' = len l /\ iids l' = iids l /\ wf l'.
 Proof. exact attachment_indices_in_range. Qed.
 Print Assumptions C05_attachment_indices_in_range.
@@ -166,7 +207,7 @@ Example C05_F25_witness :
   let gd := Some (mkGdef (Some (CdF1 0 [0; 1; 3])) None None) in
   let lks := [mkPLookup 8 None (LMarkBasePos [mkMB (CovF1 [2]) (CovF1 [1]) 1 [(0, (10, 20))] [[Some (100, 200)]]])] in
   skip_spec 8 None gd 2 = true /\
-  gpos_apply_lookup Debug (Some lks) gd 0 [init_info gd 1 0 false; init_info gd 2 0 false] =
+  gpos_apply_lookup (Some lks) gd 0 [init_info gd 1 0 false; init_info gd 2 0 false] =
   Ok [mkInfo 1 0 false 0 PNone false; mkInfo 2 0 false 0 (PMarkAnchor 0 (100, 200) (10, 20)) true].
 Proof. vm_compute. split; reflexivity. Qed.
 
@@ -254,13 +295,36 @@ Theorem C05_kern0_lookup_none : forall pairs l r,
 Proof. exact kern0_lookup_none. Qed.
 Print Assumptions C05_kern0_lookup_none.
 
-Theorem C05_apply_kern_pointwise : forall m subs l l',
-  apply_kern m subs l = Ok l' ->
+(* apply_kern on a parsed kern table is total: every glyph but the last gets the kerning of the pair it forms
+   with its right neighbour (no glyph is skipped), the last glyph is untouched *)
+Theorem C05_apply_kern_pointwise : forall subs l,
+  exists l', apply_kern subs l = Ok l' /\
   length l' = length l /\
-  forall k x y, nth_error l k = Some x -> nth_error l (S k) = Some y ->
-    exists kv, kern_pair m subs (i_id x) (i_id y) 0 = Ok kv /\ nth_error l' k = Some (set_kern x kv).
+  (forall k x y, nth_error l k = Some x -> nth_error l (S k) = Some y ->
+     nth_error l' k = Some (set_kern x (kern_pair subs (i_id x) (i_id y) 0))) /\
+  (forall x, nth_error l (pred (length l)) = Some x -> nth_error l' (pred (length l)) = Some x).
 Proof. exact apply_kern_pointwise. Qed.
 Print Assumptions C05_apply_kern_pointwise.
+
+(* the kerning of a pair: the subtables in table order, each one skipped (vertical, cross-stream, pair absent),
+   replacing (override), taking the minimum, or ADDING its value — clamped to i16 when the sum does not fit *)
+Theorem C05_kern_pair_is_fold : forall subs lf rt k,
+  kern_pair subs lf rt k = fold_left (fun acc s => kern_step s lf rt acc) subs k.
+Proof. exact kern_pair_is_fold. Qed.
+Print Assumptions C05_kern_pair_is_fold.
+
+(* plain additive subtables whose partial sums fit i16: the kerning is the sum of the subtables' values *)
+Theorem C05_kern_pair_sums : forall subs lf rt k,
+  Forall kern_additive subs -> partial_sums_fit (map (fun s => kern_value s lf rt) subs) k ->
+  kern_pair subs lf rt k = k + ksum (map (fun s => kern_value s lf rt) subs).
+Proof. exact kern_pair_sums. Qed.
+Print Assumptions C05_kern_pair_sums.
+
+Example C05_kern_saturates_example :
+  let k := [mkKern 1 (KernF0 [(1, 2, 30000)]); mkKern 1 (KernF0 [(1, 2, 30000)]); mkKern 1 (KernF0 [(1, 2, -100)])] in
+  kern_pair k 1 2 0 = 32667 /\ kern_pair (firstn 2 k) 1 2 0 = 32767 /\
+  Forall kern_additive k /\ partial_sums_fit (map (fun s => kern_value s 1 2) [nth 0 k (mkKern 0 (KernF0 [])); nth 2 k (mkKern 0 (KernF0 []))]) 0.
+Proof. vm_compute. repeat split; repeat constructor; intro; discriminate. Qed.
 
 Theorem C05_feature_lookups_sorted_once : forall l,
   strictly_sorted (sort_dedup l) /\ (forall x, In x (sort_dedup l) <-> In x l).
@@ -269,6 +333,6 @@ Print Assumptions C05_feature_lookups_sorted_once.
 
 Example C05_kern_example :
   let k := [mkKern 1 (KernF0 [(1, 2, -30); (1, 3, 15)]); mkKern 1 (KernF2 1 [0; 4] 2 [0; 0] [0; 5; 255; 251; 0; 9; 0; 0])] in
-  apply_kern Debug k [init_info None 1 0 false; init_info None 2 0 false; init_info None 3 0 false] =
+  apply_kern k [init_info None 1 0 false; init_info None 2 0 false; init_info None 3 0 false] =
   Ok [mkInfo 1 0 false (-25) PNone false; mkInfo 2 0 false 9 PNone false; mkInfo 3 0 false 0 PNone false].
 Proof. vm_compute. reflexivity. Qed.
